@@ -916,6 +916,71 @@ MUTANTS = [
          old="                                cleaned_edges.append(&mut edges);", new="                                cleaned_edges = edges;",
          edits_extra=[("                                cleaned_edges: mut edges,", "                                cleaned_edges: edges,")],
          expect="C01.i/repair-decision/accumulators-are-monotone"),
+    dict(id="C01.j-clean-node-does-not-inherit-callee-firewall-sets", prop="C01", file=CG + "repair.rs",
+         old="""                    new_tfcs.extend(
+                        callee_info
+                            .transitive_firewall_callees()
+                            .iter()
+                            .copied(),
+                    );""", new="""                    let _ = callee_info;""",
+         expect="C01.j/tfc-composition/when-verified-clean"),
+    dict(id="C01.j-firewall-callee-not-added-itself", prop="C01", file=CG + "computing.rs",
+         old="""            QueryKind::Executable(ExecutionStyle::Firewall) => {
+                let _ = self.tfc.insert_sync(callee_id);
+            }""", new="""            QueryKind::Executable(ExecutionStyle::Firewall) => {
+                for q in
+                    callee_info.transitive_firewall_callees().iter().copied()
+                {
+                    let _ = self.tfc.insert_sync(q);
+                }
+            }""",
+         expect="C01.j/tfc-composition/while-executing"),
+    dict(id="C01.k-check-callee-never-pedantic", prop="C01", file=CG + "repair.rs",
+         old="""                                query_computing.clone(),
+                                pedantic_repair,
+                            ),""", new="""                                query_computing.clone(),
+                                false,
+                            ),""",
+         expect="C01.k/pedantic-repair/inherited-not-constant"),
+    dict(id="C01.k-backward-projection-recompute-not-pedantic", prop="C01", file=CG + "slow_path.rs",
+         old="            CallerKind::BackwardProjectionPropagation => true,", new="            CallerKind::BackwardProjectionPropagation => false,",
+         expect="C01.k/pedantic-repair/inherited-not-constant"),
+    dict(id="C01.k-recompute-keeps-dirty-edges", prop="C01", file=CG + "slow_path.rs",
+         old="""                execute_query_for == ExecuteQueryFor::RecomputeQuery,
+                continuing_tx,""", new="""                false,
+                continuing_tx,""",
+         expect="C01.k/execute_query/dirty-edges-cleaned-exactly-on-recompute"),
+    dict(id="C01.l-backward-projection-chunks-capped", prop="C01", file=CG + "backward_projection.rs",
+         old="        for chunk in backward_projections.chunks(chunk_size) {",
+         new="        for chunk in backward_projections.chunks(chunk_size).take(expected_parallelism) {",
+         expect="C01.l/fan-out/no-truncating-adaptor"),
+    dict(id="C01.m-abort-callee-leaves-order-entry", prop="C01", file=CG + "computing.rs",
+         old="""        let mut callee_order = self.callee_info.callee_order.write();
+
+        callee_order.abort_callee(callee);""", new="""        let _ = &self.callee_info.callee_order;""",
+         expect="C01.m/callee-set-and-order-move-together"),
+    dict(id="C01.m-register-callee-skips-order-when-contended", prop="C01", file=CG + "computing.rs",
+         old="""                vacant_entry.insert_entry(None);
+
+                self.callee_info.callee_order.write().push(*callee);""",
+         new="""                vacant_entry.insert_entry(None);
+
+                if let Some(mut order) = self.callee_info.callee_order.try_write() {
+                    order.push(*callee);
+                }""",
+         expect="C01.m/callee-set-and-order-move-together"),
+    dict(id="C01.n-cancelled-chunk-counts-as-clean", prop="C01", file=CG + "repair.rs",
+         old="""                            Ok(
+                                ChunkedCalleeCheckDecision::Cancelled
+                                | ChunkedCalleeCheckDecision::Recompute,
+                            )
+                            | Err(_) => {""", new="""                            Ok(ChunkedCalleeCheckDecision::Cancelled) => {}
+                            Ok(ChunkedCalleeCheckDecision::Recompute)
+                            | Err(_) => {""",
+         expect="C01.n/unordered-group/cancelled-chunk-means-recompute"),
+    dict(id="C01.n-tfc-diff-only-for-firewall-callees", prop="C01", file=CG + "repair.rs",
+         old="            if !kind.is_firewall() {\n                let tfc_fingerprint_diff", new="            if kind.is_firewall() {\n                let tfc_fingerprint_diff",
+         expect="C01.n/check_callee/tfc-diff-for-non-firewall-callees"),
     # ------------------------------------------------------------------ C09.f (D5)
     dict(id="C09.f-D5-fold-heap-in-arbitrary-order", prop="C09", file=ST + "key_of_set_map/cache.rs",
          old="""        let mut ordered = log.iter().collect::<Vec<_>>();
